@@ -17,6 +17,7 @@ import (
 type Baseline struct {
 	Property string         `json:"property"`
 	Groups   map[string]int `json:"groups"` // group -> number of discharged obligations
+	Partial  map[string]int `json:"partial_groups,omitempty"` // groups that also had undischarged members at baseline (name-level matching only)
 	Names    []string       `json:"names"`
 	Funcs    []string       `json:"functions_under_contract"`
 }
@@ -145,6 +146,7 @@ func runCheck(P *Prog, prop, tier string, seed int, writeBase bool, t0 time.Time
 	if tier == "thorough" {
 		timeout = 60
 	}
+	concProp = prop
 	encs := encodeAll(P)
 	extra := extraChecks(P, prop) // non-SSA obligation generators (tables, walker types, ...)
 	encs = append(encs, extra...)
@@ -173,6 +175,21 @@ func runCheck(P *Prog, prop, tier string, seed int, writeBase bool, t0 time.Time
 		k := ((seed % len(jobs)) + len(jobs)) % len(jobs)
 		jobs = append(jobs[k:], jobs[:k]...)
 	}
+	base := loadBaseline(prop)
+	// obligations that were not proved at baseline cannot become violations: give them a short budget only
+	if base != nil && !writeBase {
+		inNames := map[string]bool{}
+		for _, n := range base.Names {
+			inNames[n] = true
+		}
+		for i := range jobs {
+			o := jobs[i].o
+			_, g := base.Groups[o.Group()]
+			if !inNames[o.Name] && !(g && base.Partial[o.Group()] == 0) {
+				o.Budget = 2
+			}
+		}
+	}
 	vs := solveAll(jobs, timeout, 16)
 	if tier == "thorough" {
 		if msg := crossCheck(jobs, vs); msg != "" {
@@ -180,7 +197,6 @@ func runCheck(P *Prog, prop, tier string, seed int, writeBase bool, t0 time.Time
 			return 2
 		}
 	}
-	base := loadBaseline(prop)
 	known := loadKnown()
 	outDir := filepath.Join(verifDir, "out", "replay", prop)
 	os.MkdirAll(outDir, 0o755)
@@ -212,7 +228,7 @@ func runCheck(P *Prog, prop, tier string, seed int, writeBase bool, t0 time.Time
 		}
 		inBase := false
 		if base != nil {
-			if _, ok := base.Groups[v.Obl.Group()]; ok {
+			if _, ok := base.Groups[v.Obl.Group()]; ok && base.Partial[v.Obl.Group()] == 0 {
 				inBase = true
 			}
 			for _, n := range base.Names {
@@ -280,7 +296,13 @@ func runCheck(P *Prog, prop, tier string, seed int, writeBase bool, t0 time.Time
 		prop, tier, len(vs), discharged, len(knownSeen), len(undecided), len(violations), solverTime, wall)
 
 	if writeBase {
-		b := Baseline{Property: prop, Groups: groupsNow, Names: names}
+		partial := map[string]int{}
+		for _, v := range vs {
+			if v.Status != "discharged" {
+				partial[v.Obl.Group()]++
+			}
+		}
+		b := Baseline{Property: prop, Groups: groupsNow, Names: names, Partial: partial}
 		sort.Strings(b.Names)
 		for k := range funcsUnder {
 			b.Funcs = append(b.Funcs, k)
@@ -479,9 +501,13 @@ func writeEvidence(P *Prog, prop, tier string, seed int, vs []*Verdict, encs []*
 			"rule":                     "one case = one proof obligation generated from the SSA of /repo's working tree (or from its constant tables / type declarations); non-trivial = needed a solver call (not syntactically true)",
 		},
 	}
-	os.MkdirAll(filepath.Join(verifDir, "evidence"), 0o755)
+	evDir := filepath.Join(verifDir, "evidence")
+	if d := os.Getenv("GOVC_EVIDENCE"); d != "" {
+		evDir = d // selftest runs on scratch copies must not overwrite the real evidence
+	}
+	os.MkdirAll(evDir, 0o755)
 	data, _ := json.MarshalIndent(ev, "", " ")
-	os.WriteFile(filepath.Join(verifDir, "evidence", prop+".json"), data, 0o644)
+	os.WriteFile(filepath.Join(evDir, prop+".json"), data, 0o644)
 }
 
 func countNontrivial(vs []*Verdict) int {
